@@ -1008,6 +1008,9 @@ def _finalize_fairy(
             )
             if connection_record:
                 connection_record.invalidate(e=e)
+            elif can_close_or_terminate_connection:
+                # detached connection: nothing else will ever close it
+                pool._close_connection(dbapi_connection, terminate=True)
             if not isinstance(e, Exception):
                 raise
         finally:
